@@ -12,6 +12,7 @@ import (
 	"strconv"
 	"strings"
 	"sync"
+	"syscall"
 	"time"
 
 	"github.com/markusressel/fan2go/internal/configuration"
@@ -69,15 +70,15 @@ type runFanState struct {
 }
 
 type RunHarness struct {
-	Env  *Env
-	Rec  *Recorder
-	Cfg  RunCfg
-	mu   sync.Mutex
-	fs   map[string]*runFanState
-	ord  []string
-	wg   sync.WaitGroup
-	t0   time.Time
-	Errs map[string]error
+	Env        *Env
+	Rec        *Recorder
+	Cfg        RunCfg
+	mu         sync.Mutex
+	fs         map[string]*runFanState
+	ord        []string
+	wg         sync.WaitGroup
+	t0         time.Time
+	Errs       map[string]error
 	armOnWrite map[string]armedFault
 	// OnEvent, when set, is called (outside all locks) after every hook event with its index
 	OnEvent func(n int, fanId, event string)
@@ -279,9 +280,16 @@ func (h *RunHarness) onRead(e *Env, name string) (int, error, bool) {
 	h.mu.Unlock()
 	if n > 0 {
 		h.Rec.Emit(Ev{"ev": "Fault", "op": "r", "reg": name})
-		return 0, fmt.Errorf("injected read error"), true
+		return 0, realisticErr("open", name, n), true
 	}
 	return 0, nil, false
+}
+
+// realisticErr: what a failing sysfs / file access really returns - a *PathError around an errno (which one varies:
+// the attribute is gone for a moment, the bus does not answer, the driver is busy ...)
+func realisticErr(op, name string, k int) error {
+	errnos := []syscall.Errno{syscall.ENOENT, syscall.EIO, syscall.ENODATA, syscall.EBUSY, syscall.ENODEV, syscall.EAGAIN, syscall.ENXIO, syscall.EACCES}
+	return &os.PathError{Op: op, Path: "/sys/class/hwmon/hwmonX/" + name, Err: errnos[k%len(errnos)]}
 }
 
 // onWrite is called under the Env mutex for every register write: it logs the write and applies
@@ -341,7 +349,7 @@ func (h *RunHarness) onWrite(e *Env, name string, val int) (error, bool, bool) {
 	h.Rec.Emit(ev)
 	switch outcome {
 	case "fail":
-		return fmt.Errorf("injected write error"), false, true
+		return realisticErr("write", name, val), false, true
 	case "ign":
 		return nil, true, true
 	}
